@@ -145,23 +145,34 @@ def r2_no_carried_state(ctx, chk, rule="C10.2"):
 
 
 def r3_determinism(ctx, chk, rule="C10.3"):
+    """No entropy in the solver: judged by *use* (a call of random / uuid / secrets / os.urandom inside a function reachable from
+    solve() is a violation, a clock read is 'undecided' - it may only feed a log line), not by the import list."""
     bad = 0
-    for mname in shared.SOLVER_MODULES:
-        m = ctx.prog.mod(mname)
-        for n in ast.walk(m.tree):
-            names = []
-            if isinstance(n, ast.Import):
-                names = [a.name.split(".")[0] for a in n.names]
-            elif isinstance(n, ast.ImportFrom) and n.module:
-                names = [n.module.split(".")[0]]
-            for nm in names:
-                if nm in ENTROPY:
-                    bad += 1
-                    chk.violation(rule, "%s:%d" % (mname, n.lineno), "solver module imports `%s`: results may depend on time / randomness / environment" % nm,
-                                  expected="no entropy source in tad.py / reverse_dfs.py", found=norm_stmt(n), construct="%s imports %s" % (mname, nm))
+    scope = shared.solver_scope(ctx)
+    hard = ("random", "uuid", "secrets")
+    hard_calls = ("os.urandom", "os.getrandom", "os.getpid")
+    soft = ("time", "datetime")
+    for f in scope:
+        for c in walk_no_nested_defs(f.node):
+            if not isinstance(c, ast.Call):
+                continue
+            nm = call_name(c)
+            head = nm.split(".")[0]
+            full = nm
+            if head in f.mod.imports:
+                m2, attr = f.mod.imports[head]
+                m2 = m2[:-3] if m2.endswith(".py") else m2
+                full = (m2 + "." + attr if attr else m2) + nm[len(head):]
+            if full.split(".")[0] in hard or full in hard_calls:
+                bad += 1
+                chk.violation(rule, f.where(c), "`%s` is called while solving: the result of a solve can differ from one run to the next" % src(c),
+                              expected="no entropy source reachable from solve()", found=src(c), construct="%s calls %s" % (f.short, full))
+            elif full.split(".")[0] in soft:
+                bad += 1
+                chk.undecided(rule, f.where(c), "`%s` is called while solving: whether the clock value reaches a result is not tracked" % src(c))
     if not bad:
-        chk.ok(rule, "tad.py, reverse_dfs.py", "imports: %s - no entropy / clock / environment module" % sorted(
-            {v[0] for m in shared.SOLVER_MODULES for v in ctx.prog.mod(m).imports.values()}))
+        chk.ok(rule, "tad.py, reverse_dfs.py", "%d functions reachable from solve(): no call into random / uuid / secrets / os entropy, no clock read (imports: %s)" % (
+            len(scope), sorted({v[0] for m in shared.SOLVER_MODULES for v in ctx.prog.mod(m).imports.values()})))
     # sets enumerated into results must be sorted
     pt = shared.solver_pointsto(ctx)
     scope = shared.solver_scope(ctx)
